@@ -72,6 +72,9 @@ type scen struct {
 	minSync  bool
 	walSync  bool
 	external bool // failover-style pending syncs (index callback)
+	// waitAcks: the writer waits for every acknowledgement before it calls Close (Close would
+	// otherwise flush and acknowledge everything itself and hide a lost wake-up)
+	waitAcks bool
 }
 
 type timerT struct {
@@ -108,6 +111,7 @@ type h struct {
 	writtenAt  []int
 	closeErr   error
 	closed     bool
+	waited     bool
 	timerFired int
 	payload    [][]byte
 	extDone    []int64 // indexes reported done by the external callback
@@ -174,6 +178,24 @@ func (s *h) Threads() []func() {
 			if err != nil {
 				s.errs[i] = err
 			}
+		}
+		if s.sc.waitAcks {
+			if s.sc.external {
+				// failover-style: spin (cooperatively) until the callback has reported the last index
+				for len(s.extDone) == 0 || s.extDone[len(s.extDone)-1] < int64(len(s.sc.recs)-1) {
+					if len(s.extErr) > 0 && s.extErr[len(s.extErr)-1] != nil {
+						break
+					}
+					vsched.Yield()
+				}
+			} else {
+				for i, r := range s.sc.recs {
+					if r.sync {
+						s.wgs[i].Wait()
+					}
+				}
+			}
+			s.waited = true
 		}
 		s.closeErr = w.Close()
 		s.closed = true
@@ -289,6 +311,8 @@ func TestCheck(t *testing.T) {
 			mk("2sync-errors", scen{recs: []rec{{10, S}, {20, S}}, errs: true}, 1, 2, 2),
 			mk("2sync-external-queue", scen{recs: []rec{{10, S}, {20, S}}, external: true}, 1, 2, 1),
 			mk("bigrecord-sync", scen{recs: []rec{{40000, S}, {10, S}}}, 1, 2, 1),
+			mk("2sync-wait-acks-then-close", scen{recs: []rec{{10, S}, {20, S}}, waitAcks: true}, 1, 2, 1),
+			mk("2sync-minsync-errors-wait-acks", scen{recs: []rec{{10, S}, {20, S}}, minSync: true, errs: true, waitAcks: true}, 1, 2, 2),
 		}
 		d1x.Run(t, c, sc)
 	})
